@@ -45,3 +45,10 @@ Theorem C09_no_structural_change_while_progressing : forall old new others same,
   zlen (Validate.steps_of (Validate.v_strategy old)) = zlen (Validate.steps_of (Validate.v_strategy new)).
 Proof. exact Proofs.Validate.update_keeps_structure. Qed.
 Print Assumptions C09_no_structural_change_while_progressing.
+
+(* ---- blue-green strategy ---- *)
+From RV Require Model.RolloutBG Proofs.RolloutBG.
+Theorem C09_bluegreen_reconcile_no_panic :
+  forall sp st w br, Proofs.RolloutSM.rollout_wf sp st br -> RolloutBG.reconcile_bg sp st w br <> RolloutSM.RPanic.
+Proof. exact Proofs.RolloutBG.reconcile_bg_no_panic. Qed.
+Print Assumptions C09_bluegreen_reconcile_no_panic.
